@@ -103,11 +103,45 @@ def joinWith (sep : Str) : List Str → Str
   | [x] => x
   | x :: xs => x ++ sep ++ joinWith sep xs
 
-/-- index just after the `<` of the first `<\w` -/
-def firstElement : Nat → Str → Nat
-  | _, [] => 0
-  | i, [_] => 0 * i
-  | i, c :: d :: rest => if c == '<' && wordc d then i + 1 else firstElement (i + 1) (d :: rest)
+/-- the rest after the first occurrence of `pat` (`[]` when there is none: Python's `find` answers -1 and the scan jumps to the end) -/
+def dropThrough (pat : Str) : Str → Str
+  | [] => []
+  | c :: r => if startsWith pat (c :: r) then (c :: r).drop pat.length else dropThrough pat r
+
+/-- `_skip_declaration`: what follows a `<!…>` declaration — quoted literals, comments, processing instructions and a bracketed internal subset inside it are
+skipped as a whole.  `s` starts after the `<!`. -/
+def skipDecl : Nat → Int → Str → Str
+  | 0, _, _ => []
+  | _, _, [] => []
+  | n + 1, depth, c :: r =>
+    if c == '"' || c == '\'' then skipDecl n depth (dropThrough [c] r)
+    else if startsWith "<!--".toList (c :: r) then skipDecl n depth (dropThrough "-->".toList (r.drop 3))
+    else if startsWith "<?".toList (c :: r) then skipDecl n depth (dropThrough "?>".toList (r.drop 1))
+    else if c == '[' then skipDecl n (depth + 1) r
+    else if c == ']' then skipDecl n (depth - 1) r
+    else if c == '>' && depth ≤ 0 then r
+    else skipDecl n depth r
+
+/-- `_first_element_offset`: the suffix of the document that starts with the `<` of the first start tag — text that looks like one inside a comment, a
+processing instruction or the DOCTYPE declaration does not count -/
+def firstElemRest : Nat → Str → Option Str
+  | 0, _ => none
+  | n + 1, s =>
+    match s.dropWhile (· != '<') with
+    | [] => none
+    | c :: r =>
+      if startsWith "<!--".toList (c :: r) then firstElemRest n (dropThrough "-->".toList (r.drop 3))
+      else if startsWith "<?".toList (c :: r) then firstElemRest n (dropThrough "?>".toList (r.drop 1))
+      else if startsWith "<!".toList (c :: r) then firstElemRest n (skipDecl (r.length + 1) 0 (r.drop 1))
+      else match r with
+        | d :: _ => if wordc d then some (c :: r) else firstElemRest n r
+        | [] => none
+
+/-- index just after the `<` of the first element (0 when there is none) -/
+def firstElement (data : Str) : Nat :=
+  match firstElemRest (data.length + 1) data with
+  | some rest => data.length - rest.length + 1
+  | none => 0
 
 structure Result where
   version : Option String
@@ -119,7 +153,7 @@ def replaceDoctype (data : Str) : Result :=
   -- `re.match(rb"^\s*<", data)`
   match data.dropWhile ws with
   | '<' :: _ =>
-    let fe := firstElement 0 data
+    let fe := firstElement data
     let head := data.take fe
     let tail := data.drop fe
     let (entityResults, head1) := scan "<!ENTITY".toList entityPrevOK [] head
